@@ -399,9 +399,8 @@ def check(s, hist):
         pend = [r[0] for r in rows if not r[1]]
         if pend:
             bad("pending-after-confirmed-login", "keys %s are still pending upload after a login whose upload was confirmed" % pend)
-        logins = a.logins
-        if logins and logins[-1] is True:
-            bad("stuck-passive", "after the confirmed upload the client did not come back with a normal (non passive) login", logins)
+        # (whether the client comes back with a non-passive login afterwards is not part of this property's statement;
+        # an earlier version demanded it and reported a sticky passive flag at depth 7 - DESIGN 9.4, observations)
     return v
 
 
